@@ -211,6 +211,26 @@ where
     }
 }
 
+#[cfg(feature = "verif-hooks")]
+impl<V: Clone> Clone for Broadcasts<V> {
+    fn clone(&self) -> Self {
+        Self {
+            flip: self.flip.clone(),
+            flop: self.flop.clone(),
+        }
+    }
+}
+
+#[cfg(feature = "verif-hooks")]
+impl<V> Broadcasts<V> {
+    // (remaining_tx, data) in heap iteration order
+    pub(crate) fn verif_entries(&self) -> impl Iterator<Item = (usize, &[u8])> {
+        self.flip
+            .iter()
+            .map(|entry| (entry.remaining_tx, &entry.data[..]))
+    }
+}
+
 #[derive(Debug, Clone)]
 struct Entry<T> {
     remaining_tx: usize,
